@@ -273,7 +273,7 @@ func runC11(w *World) *Result {
 	r.Rule("R-C11-table", "punctuation table: longer-before-prefix; parser-tested token types are producible", 10)
 	r.Rule("R-C11-regex", "probes: anchored; identifier-like probes end in \\b; terminated comment probe non-greedy", 5)
 	r.Rule("R-C11-bytes", "no uint8→string conversion in the lexer", 1)
-	r.Rule("R-C11-pos", "arms that can consume \\n assign the row counter", 3)
+	r.Rule("R-C11-pos", "arms that can consume \\n assign the row counter, and compute every position update from the consumed source text (not the decoded value)", 5)
 	r.Rule("R-C11-errors", "unterminated string and unknown character end in an error exit", 2)
 	r.Rule("R-C11-escapes", "escape sequences are decoded for their full length", 1)
 	lf, err := BuildLexFacts(w)
